@@ -388,8 +388,13 @@ static void case_c10(const args_t *a, long c, rng_t *r)
 
 	size_t len; uint8_t *data = map_file(path, &len);
 	rd_file_t f;
-	if (!data || rd_parse(data, len, (int64_t)cfg.prefix_len, &f) != 0) {
-		inconclusive("independent decoder cannot establish the truth about this file: %s", data ? f.err : "unreadable");
+	/* the truth about where the index block sits comes from walking the frames, not from the trailer under test */
+	int64_t true_ioff = data ? rd_find_index_by_walking(data, len, cfg.prefix_len, 2) : -1;
+	rd_index_off_override = true_ioff;
+	int prc = data ? rd_parse(data, len, (int64_t)cfg.prefix_len, &f) : -1;
+	rd_index_off_override = -1;
+	if (!data || true_ioff < 0 || prc != 0) {
+		inconclusive("independent decoder cannot establish the truth about this file: %s", !data ? "unreadable" : true_ioff < 0 ? "frames do not tile the file up to the trailer" : f.err);
 		if (data) rd_free(&f);
 	} else {
 		uint64_t entries = 0, bk = 0, bv = 0, bd = 0;
@@ -411,7 +416,8 @@ static void case_c10(const args_t *a, long c, rng_t *r)
 				cmp_field("bytes_index_block", mtbl_metadata_bytes_index_block(md), f.index.frame_len, &cfg, "");
 				cmp_field("bytes_keys", mtbl_metadata_bytes_keys(md), bk, &cfg, "");
 				cmp_field("bytes_values", mtbl_metadata_bytes_values(md), bv, &cfg, "");
-				cmp_field("index_block_offset", mtbl_metadata_index_block_offset(md), cfg.prefix_len + bd, &cfg, "");
+				cmp_field("index_block_offset", mtbl_metadata_index_block_offset(md), (uint64_t)true_ioff, &cfg, "");
+				if ((uint64_t)true_ioff != cfg.prefix_len + bd) viol("C10/data-blocks-not-contiguous-from-prefix", "index found at %" PRId64 " but prefix %zu + data block bytes %" PRIu64, true_ioff, cfg.prefix_len, bd);
 				cmp_field("data_block_size", mtbl_metadata_data_block_size(md), eff_block_size(&cfg), &cfg, "");
 				cmp_field("compression_algorithm", mtbl_metadata_compression_algorithm(md), (uint64_t)cfg.comp, &cfg, "");
 				cmp_field("file_version", (uint64_t)mtbl_metadata_file_version(md), (uint64_t)MTBL_FORMAT_V2, &cfg, "");
